@@ -12,7 +12,7 @@ from engine.models import LenBytes, sym_bytes
 from engine.runner import Shard
 from props import fsm_common as F
 
-MODELS = ['fmt_stub', 'HfSerialize', 'HpackEnc', 'LenBytes', 'FrameFeed']
+MODELS = ['fmt_stub', 'HfSerialize', 'HpackEnc', 'LenBytes', 'FrameFeed', 'SettingsBlob']
 BOUNDS = {
     'peer MAX_FRAME_SIZE M': '2^14..2^24-1 symbolic',
     'encoded header block length B': '1..3M symbolic (at most three fragments)',
@@ -285,6 +285,43 @@ def h_goaway_fields(client):
     return h
 
 
+def h_update_settings_frame(client):
+    """update_settings(d) appends exactly one SETTINGS frame carrying exactly d (one or two
+    solver-chosen ids with symbolic valid values - equal to the value in force or not),
+    also while an earlier change is still unacknowledged"""
+    def h():
+        with h2h.native():
+            ctx = ops.Ctx(client)
+        me = ctx.me
+        ids = [1, 2, 3, 4, 5, 6, 8]
+        if sym_bool('earlier_change_pending'):
+            pk = sym_choice('pending_id', ids)
+            me.update_settings({pk: h2h.SETTING_RANGES[pk][1]})
+            me.data_to_send()
+        req = {}
+        k1 = sym_choice('id1', ids)
+        lo, hi = h2h.SETTING_RANGES[k1]
+        req[k1] = sym_int('value1', lo, hi, default=lo)
+        k2 = sym_choice('id2', [0] + ids)
+        if k2 and k2 != k1:
+            lo, hi = h2h.SETTING_RANGES[k2]
+            req[k2] = sym_int('value2', lo, hi, default=lo)
+        out = models.Out(me)
+        me.update_settings(dict(req))
+        note('sent')
+        fr = out.frames()
+        check(len(fr) == 1 and isinstance(fr[0], hf.SettingsFrame) and 'ACK' not in fr[0].flags
+              and fr[0].stream_id == 0, 'settings-frame', [h2h.frame_sig(f) for f in fr])
+        if len(fr) == 1 and isinstance(fr[0], hf.SettingsFrame):
+            got = fr[0].settings
+            check(sorted(int(k) for k in got) == sorted(req), 'settings-frame-ids',
+                  (sorted(int(k) for k in got), sorted(req)))
+            for k, v in req.items():
+                if k in got:
+                    check(s_eq(got[k], v), 'settings-frame-value', (k, got[k], v))
+    return h
+
+
 def h_frame_size_after_settings(client, other):
     """the frame-size limit in force is the one of the latest SETTINGS frame received"""
     def h():
@@ -355,8 +392,14 @@ def shards(tier, seed):
         r = 'client' if client else 'server'
         out.append(Shard('preface/%s' % r, h_preface(client), expect=['initiated']))
         out.append(Shard('goaway_fields/%s' % r, h_goaway_fields(client), expect=['closed']))
+        out.append(Shard('update_settings_frame/%s' % r, h_update_settings_frame(client),
+                         expect=['sent']))
         for other in [None] + [SettingCodes(x) for x in (1, 2, 3, 4, 6, 8)]:
             out.append(Shard('frame_size_after_settings/%s/with=%s' % (
                 r, int(other) if other else 'none'), h_frame_size_after_settings(client, other),
                 expect=['sent', 'refused']))
+    # after an h2c upgrade the limits in force are those of the HTTP2-Settings header
+    from props import c25
+    out.append(Shard('upgrade_handover', c25.h_settings_handover(True), budget=120,
+                     expect=['upgraded']))
     return out
